@@ -21,6 +21,10 @@ carrier, malformed TLV, repeated tags) is reported under dontcare instead of bei
 import datetime
 import decimal
 import re
+import signal
+import threading
+
+from vlib.repo import HarnessError
 
 ASCII_DIGITS = '0123456789'
 HEXLOWER = '0123456789abcdef'
@@ -312,17 +316,42 @@ def _walk_tlv(raw, strict, res, base, bit):
     return out, dontcare
 
 
-def decode(config, codec, hex_bitmap, data, strict=True):
+class _RegexTimeout(BaseException):
+    pass
+
+
+def _raise_timeout(signum, frame):
+    raise _RegexTimeout()
+
+
+def bounded_match(rx, text, limit=5.0):
+    """re.match under a wall-clock limit: the expression belongs to the configuration under test, and an expression that
+    backtracks exponentially must make the run inconclusive (exit 2) instead of hanging the reference"""
+    if threading.current_thread() is not threading.main_thread():
+        return re.match(rx, text)
+    old = signal.signal(signal.SIGALRM, _raise_timeout)
+    signal.setitimer(signal.ITIMER_REAL, limit)
+    try:
+        return re.match(rx, text)
+    except _RegexTimeout:
+        raise HarnessError(f'reference: the configured DE43 expression did not finish within {limit}s on {text[:60]!r}; inconclusive')
+    finally:
+        signal.setitimer(signal.ITIMER_REAL, 0)
+        signal.signal(signal.SIGALRM, old)
+
+
+def decode(config, codec, hex_bitmap, data, strict=True, de43=True):
+    """de43=False skips the DE43 expression (framing only: used where the reference is not the oracle, e.g. for frame maps)"""
     res = Result()
     try:
-        res.values, res.dontcare = _decode(config, codec, hex_bitmap, bytes(data), strict, res)
+        res.values, res.dontcare = _decode(config, codec, hex_bitmap, bytes(data), strict, res, de43)
         res.ok = True
     except _Reject as ex:
         res.reason = str(ex)
     return res
 
 
-def _decode(config, codec, hex_bitmap, data, strict, res):
+def _decode(config, codec, hex_bitmap, data, strict, res, de43=True):
     bmlen = 32 if hex_bitmap else 16
     if len(data) < 4 + bmlen:
         raise _Reject('shorter than MTI + bitmap')
@@ -421,8 +450,8 @@ def _decode(config, codec, hex_bitmap, data, strict, res):
                 _merge(values, derived, dontcare, strict, bit)
             elif proc == 'DE43':
                 rx = cfg.get('field_processor_config')
-                if rx:
-                    m = re.match(rx, text)
+                if rx and de43:
+                    m = bounded_match(rx, text)
                     if m:
                         g = dict(m.groupdict())
                         if g.get('DE43_POSTCODE'):
